@@ -1,5 +1,14 @@
 """C17 (thread_local!/lazy_static!) rules H1-H3 and C18 (yield) rules U1-U4."""
 from .common import *
+from .common import _closure_arg
+
+
+def strip_param(body, e):
+    """Expression is rooted at a parameter of the (closure) body."""
+    for x in subexprs(e):
+        if x[0] == "param":
+            return True
+    return False
 
 
 def H1(ctx):
@@ -46,8 +55,26 @@ def H1(ctx):
             in_loop = any(b in fn.body.reachable(s) for s in fn.body.succs(b))
             from_map = "self.locals" in canon(arg_expr(fn.body, t, 0))
             ok = ok or (in_loop and from_map)
+        where = takes[0][0] if takes else 0
+        if not ok:
+            # equivalent iterator form: self.locals.values_mut().map(|l| l.0.take()).collect() / .for_each(..)
+            for (b, t, c) in prog.sites(inst):
+                if callee_path(t) in ("std::iter::Iterator::map", "std::iter::Iterator::for_each") and \
+                        "self.locals" in canon(arg_expr(fn.body, t, 0)):
+                    ck2 = _closure_arg(arg_expr_call(fn.body, t))
+                    cf = prog.fns.get(ck2) if ck2 else None
+                    if cf is None:
+                        continue
+                    tk = [b2 for (b2, t2, c2) in prog.sites(prog.ident(ck2)) if prog.callee_key(c2) == "std::option::Option::<T>::take"
+                          and strip_param(cf.body, arg_expr(cf.body, t2, 0))]
+                    consumed = callee_path(t).endswith("for_each") or any(
+                        callee_path(t3).split("::")[-1] in ("collect", "for_each", "count", "last", "fold", "extend")
+                        for (b3, t3, c3) in prog.sites(inst) if b3 in fn.body.reachable(b))
+                    if tk and every_path_passes(cf.body, tk) and consumed:
+                        ok = True
+                        where = b
         if ok:
-            ctx.ok("H1", dk, "every local value is taken (slot left as destroyed)", [site_str(prog, dk, takes[0][0])])
+            ctx.ok("H1", dk, "every local value is taken (slot left as destroyed)", [site_str(prog, dk, where)])
         else:
             ctx.bad("H1", dk, "drop_locals must take() every thread-local value of the exiting thread", fn.loc(), detail="take")
     # a destroyed slot yields AccessError
@@ -244,10 +271,10 @@ def U3(ctx):
     body = fn.body
     inst = prog.ident(fk)
     # re-activation: set_runnable guarded by is_yield() && Some(id) != next
-    sr = [(b, t) for (b, t, c) in prog.sites(inst) if prog.callee_key(c) == T + "::set_runnable"]
+    sr = [(s_["bb"], s_["term"], prog.fns[s_["fn"]].body) for s_ in call_sites(prog, T + "::set_runnable") if enclosing_fn(s_["fn"]) == fk]
     ok = False
-    for (b, t) in sr:
-        atoms = guard_atoms(body, b)
+    for (b, t, sbody) in sr:
+        atoms = guard_atoms(sbody, b)
         y = any(mentions_call(e, T + "::is_yield") and pol is True for (e, pol, v, sb) in atoms)
         ne = any(e[0] == "call" and e[1].endswith("PartialEq::ne") and "branch_thread" in canon(e) and pol is True for (e, pol, v, sb) in atoms)
         ok = ok or (y and ne)
@@ -323,3 +350,27 @@ def U4(ctx):
             ctx.ok("U4", yk, "first_seen[self] <= last_yield; false without a yield or without having seen the store", [yfn.loc()])
         else:
             ctx.bad("U4", yk, "is_seen_before_yield must compare the thread's own first-seen version with its last yield (%s)" % txts, yfn.loc())
+
+
+def U5(ctx):
+    """The yield bookkeeping of a thread (last_yield, yield_count, Yield state) does not survive into the next execution:
+    thread::Set::clear either replaces every Thread by Thread::new or re-initialises these fields of a recycled slot."""
+    from . import modelrules
+    prog = ctx.prog
+    sk = "rt::thread::Set::clear"
+    sfn = need_fn(ctx, "U5", sk)
+    if sfn is None:
+        return
+    for f in ("last_yield", "yield_count", "state"):
+        if ctor_field_value(prog, T, f, T + "::new") is None:
+            ctx.missing("U5", "Thread." + f, "Thread::new does not initialise %s" % f)
+    if modelrules.threads_rebuilt(prog):
+        ctx.ok("U5", sk, "every execution starts from Thread::new (no yield bookkeeping carried over)", [sfn.loc()])
+        return
+    stale = [f for f in modelrules.recycled_thread_stale_fields(prog) if f in ("last_yield", "yield_count", "state")]
+    if stale:
+        for f in stale:
+            ctx.bad("U5", "Thread." + f, "a recycled thread slot keeps `%s` from the previous execution: loads before the first yield of the "
+                    "new execution are judged against a stale yield point" % f, sfn.loc(), detail="survives")
+    else:
+        ctx.ok("U5", sk, "recycled slots get last_yield / yield_count / state of Thread::new", [sfn.loc()])
